@@ -1,6 +1,6 @@
 CONSTANTS W = 3
-NMAX = 8
-FLO = 2
+NMAX = 5
+FLO = 1
 FHI = 2
 INIT Init
 NEXT Next
@@ -9,6 +9,5 @@ INVARIANT I_SumFits
 INVARIANT I_ProdFits
 INVARIANT I_DotFits
 INVARIANT I_SumTight
-INVARIANT I_CumProdFits
+INVARIANT I_CumProdOldRule
 INVARIANT I_FoldsAgree
-INVARIANT Emit
